@@ -1,1 +1,102 @@
-fn main() {}
+//! E3 `codec`: generators + round-trip / differential oracles for the wire codecs of dust-dds.
+//!
+//! Subcommands: `c08` (RTPS message round trip), `c13` (discovery data round trip),
+//! `c14` (time conversions and arithmetic), `c38` (UDP transport fragment size range).
+//! Contract: /verif/harness/ENGINES.md.
+mod c08;
+#[cfg(c13_hooks)]
+mod c13;
+#[cfg(not(c13_hooks))]
+mod c13 {
+    //! /repo lacks the C13 constructor hooks (see build.rs): nothing can be observed.
+    pub fn run(_run: &crate::Run) -> vcore::Report {
+        let mut r = vcore::Report::new("C13");
+        r.inconclusive(
+            "hook missing: verif_new/verif_* accessors for DiscoveredWriterData, DiscoveredReaderData, \
+             DiscoveredTopicData, SpdpDiscoveredParticipantData, ParticipantProxy (cargo feature verif_hooks) \
+             are not in /repo/dds/src/dcps/data_representation_builtin_endpoints",
+        );
+        r
+    }
+}
+mod c14;
+mod c38;
+mod util;
+
+use vcore::{Args, Report};
+
+/// Common run parameters of one shard.
+pub struct Run {
+    pub seed: u64,
+    pub shard: u64,
+    pub nshards: u64,
+    /// total cases over all shards
+    pub cases: u64,
+    pub tier: String,
+    /// replay file of the runner, if any
+    pub replay: Option<vcore::Json>,
+    /// `--out` path (also the prefix of scratch files of supervised workers)
+    pub out: String,
+    /// `--worker <list>`: run the listed cases in-process (child of a supervising shard)
+    pub worker: Option<String>,
+}
+
+impl Run {
+    /// half-open range of the global case indices [0, cases) this shard executes
+    pub fn my_range(&self, total: u64) -> (u64, u64) {
+        let n = self.nshards.max(1);
+        let lo = (total as u128 * self.shard as u128 / n as u128) as u64;
+        let hi = (total as u128 * (self.shard as u128 + 1) / n as u128) as u64;
+        (lo, hi)
+    }
+    pub fn thorough(&self) -> bool {
+        self.tier == "thorough"
+    }
+}
+
+fn main() {
+    let args = Args::parse();
+    let sub = args.pos.first().cloned().unwrap_or_default();
+    let out = args.str("out", "-");
+    let replay = if args.has("replay") {
+        let p = args.str("replay", "");
+        match std::fs::read_to_string(&p)
+            .map_err(|e| e.to_string())
+            .and_then(|s| vcore::Json::parse(&s))
+        {
+            Ok(j) => Some(j),
+            Err(e) => {
+                let mut r = Report::new(&sub.to_uppercase());
+                r.inconclusive(format!("cannot read replay file {p}: {e}"));
+                r.write(&out);
+                return;
+            }
+        }
+    } else {
+        None
+    };
+    let run = Run {
+        seed: args.u64("seed", 1),
+        shard: args.u64("shard", 0),
+        nshards: args.u64("nshards", 1).max(1),
+        cases: args.u64("cases", 1000),
+        tier: args.str("tier", "quick"),
+        replay,
+        out: out.clone(),
+        worker: if args.has("worker") { Some(args.str("worker", "")) } else { None },
+    };
+    util::install_panic_hook();
+    let report = match sub.as_str() {
+        "c08" => c08::run(&run),
+        "c13" => c13::run(&run),
+        "c14" => c14::run(&run),
+        "c38" => c38::run(&run),
+        other => {
+            eprintln!("usage: codec <c08|c13|c14|c38> --seed N --shard I --nshards N --cases N --tier T --out F [--replay F]");
+            let mut r = Report::new("C??");
+            r.inconclusive(format!("unknown subcommand {other:?}"));
+            r
+        }
+    };
+    report.write(&out);
+}
